@@ -12,5 +12,5 @@ class ConditionNode(BaseNode):
             return ConditionNode(parser)
             
     def parse(self, env):
-        env.nodes[-1].condition = self.value_expr
+        env.property_target().condition = self.value_expr
         return None
